@@ -327,7 +327,7 @@ class TypeGen:
     # ------------------------------------------------------------ named
     def serializable_type(self):
         name = self.fresh("ST")
-        self.fam.add({"k": "stype", "name": name, "flavour": self.rng.choice(["plain", "annotations"])})
+        self.fam.add({"k": "stype", "name": name, "flavour": self.rng.choice(["plain", "annotations", "annotations-list"])})
         return ("stype", name)
 
     def named_tuple(self, depth):
